@@ -7,9 +7,13 @@
          vote | finish | abort | reopen | state
          qall oids=a,b bounds=.. serials=.. hsizes=.. windows=f:l,.. iters=s:e,.. linv=..
   The answer of `qall` is one line of ` | `-separated `query=answer` segments.
+  The same process also drives the MappingStorage model (`ZodbModel/Mapping.lean`):
+         m.reset | m.begin t:<tid>|n:<now> <u> <d> <e> | m.store <oid> <serial> <data> | m.finish | m.abort
+         m.qall oids=.. bounds=.. serials=.. hsizes=.. iters=..
 -/
 import ZodbModel.DriverLib
 import ZodbModel.FileStore
+import ZodbModel.Mapping
 open ZodbModel ZodbModel.FileStore
 open ZodbModel.History (Err Rec Txn HistEntry UndoEntry)
 
@@ -208,4 +212,74 @@ def fsStep (s : FS) (toks : List String) : FS × String :=
   | "qall" :: rest => (s, qall s rest)
   | _ => (s, "bad-op")
 
-def main : IO Unit := driverLoop fsStep init
+/-! ### MappingStorage -/
+
+def showMRes : Mapping.Res → String
+  | .ok _ => "ok"
+  | .error .conflict => "err:Conflict"
+  | .error .storageTxn => "err:StorageTransaction"
+  | .error .busy => "err:Busy"
+
+def mqall (m : Mapping.MS) (toks : List String) : String :=
+  let oids := hexList (arg toks "oids")
+  let bounds := hexList (arg toks "bounds")
+  let serials := hexList (arg toks "serials")
+  let hsizes := natList (arg toks "hsizes")
+  let iters := pairList (arg toks "iters")
+  let segs : List String :=
+    ["lastTransaction=" ++ hexN 8 (Mapping.lastTransaction m)] ++
+    oids.map (fun o => "load(" ++ hexN 8 o ++ ")=" ++
+      showExcept (fun (r : Bytes × Nat) => showBytes r.1 ++ "@" ++ hexN 8 r.2) (Mapping.load m o)) ++
+    oids.map (fun o => "getTid(" ++ hexN 8 o ++ ")=" ++ showExcept (hexN 8) (Mapping.getTid m o)) ++
+    oids.flatMap (fun o => serials.map fun t =>
+      "loadSerial(" ++ hexN 8 o ++ "," ++ hexN 8 t ++ ")=" ++ showExcept showBytes (Mapping.loadSerial m o t)) ++
+    oids.flatMap (fun o => bounds.map fun b =>
+      "loadBefore(" ++ hexN 8 o ++ "," ++ hexN 8 b ++ ")=" ++
+        showExcept (fun (r : Option (Bytes × Nat × Option Nat)) => match r with
+          | none => "None"
+          | some (d, t, e) => showBytes d ++ "@" ++ hexN 8 t ++ ".." ++ showONat e) (Mapping.loadBefore m o b)) ++
+    oids.flatMap (fun o => hsizes.map fun n =>
+      "history(" ++ hexN 8 o ++ "," ++ toString n ++ ")=" ++
+        showExcept (fun l => "[" ++ joinWith ";" (l.map showHist) ++ "]") (Mapping.history m o n)) ++
+    iters.map (fun w =>
+      "iterator(" ++ w.1 ++ "," ++ w.2 ++ ")=" ++
+        (match parseONat w.1, parseONat w.2 with
+         | some a, some b =>
+           let r := Mapping.iterator m a b
+           "[" ++ joinWith ";" (r.map showTxn) ++ "]" ++ "tids[" ++
+             joinWith ";" (r.map fun t => joinWith "," (t.recs.map fun _ => hexN 8 t.tid)) ++ "]"
+         | _, _ => "bad-arg"))
+  joinWith " | " segs
+
+def mStep (m : Mapping.MS) (toks : List String) : Mapping.MS × String :=
+  match toks with
+  | ["m.reset"] => (Mapping.init, "ok")
+  | ["m.begin", t, u, d, e] =>
+    let tidArg : Option (Option Nat × Nat) :=
+      if t.startsWith "t:" then (natOfHex (t.drop 2).toString).map fun x => (some x, 0)
+      else if t.startsWith "n:" then (natOfHex (t.drop 2).toString).map fun x => (none, x)
+      else none
+    match tidArg, parseBytes u, parseBytes d, parseBytes e with
+    | some (tid?, now), some u, some d, some e =>
+      let (m', r) := Mapping.begin m tid? now u d e
+      (m', showMRes r ++ " tid=" ++ (match m'.txn with | some x => hexN 8 x.tid | none => "none"))
+    | _, _, _, _ => (m, "bad-op")
+  | ["m.store", oid, serial, data] =>
+    match natOfHex oid, natOfHex serial, parseBytes data with
+    | some o, some t, some d => let (m', r) := Mapping.store m o t d; (m', showMRes r)
+    | _, _, _ => (m, "bad-op")
+  | ["m.finish"] =>
+    let (m', r) := Mapping.finish m
+    (m', showMRes r ++ (match r with | .ok _ => " tid=" ++ hexN 8 m'.ltid | .error _ => ""))
+  | ["m.abort"] => let (m', r) := Mapping.abort m; (m', showMRes r)
+  | "m.qall" :: rest => (m, mqall m rest)
+  | _ => (m, "bad-op")
+
+def bothStep (s : FS × Mapping.MS) (toks : List String) : (FS × Mapping.MS) × String :=
+  match toks with
+  | t :: _ =>
+    if t.startsWith "m." then let (m', o) := mStep s.2 toks; ((s.1, m'), o)
+    else let (f', o) := fsStep s.1 toks; ((f', s.2), o)
+  | [] => (s, "bad-op")
+
+def main : IO Unit := driverLoop bothStep (init, Mapping.init)
